@@ -19,6 +19,10 @@ loop runs to quiescence (virtual time) and the real BaseIOStream is compared wit
 * a non-empty write with pending + len(data) > max_write_buffer_size raises StreamBufferFullError and
   has no side effect (no bytes, no future, later writes/futures follow the unchanged model); any other
   write is accepted;
+* optional concurrently pending read (``read`` op: read_bytes(4) / read_until(b"\n"); ``feed`` op delivers
+  1-5 inbound bytes, so it stays blocked or completes mid-way; verified against the C11 model) and
+  "no lost interest": at every quiescence a stream with unsent buffered bytes is registered for WRITE
+  and one with a pending read for READ (the interest set recorded by the in-memory event-loop proxy);
 * epilogue: with unlimited credit every future resolves and the log equals the whole concatenation.
 
 EITHER class `mutated_after_write_either`: a caller's bytearray is overwritten after write() while
@@ -40,6 +44,11 @@ Sensitivity (quick tier, seed 1, scratch copies of tornado/iostream.py; all caug
   M6 _StreamBuffer.peek: memoryview path ignores ``pos`` (``b[:size]``)                  -> C12.wire_not_concatenation; sweep drain
   M8 _StreamBuffer.advance: large path ``pos += size`` -> ``pos = size``                 -> C12.wire_not_concatenation; sweep drain
   M12 _StreamBuffer.advance: ``b_remain <= 0`` -> ``< 0`` (empty head buffer kept)       -> C12.bytes_stuck_while_writable; sweep peek
+  M13 _handle_events: ``if self.writing(): state |= WRITE`` -> ``elif`` chained to the reading() test (WRITE
+      interest dropped after an event while a read is outstanding; the rest of a partial send is never
+      flushed)                                   -> seeds 1,2,3: C12.lost_write_interest (needs the
+      concurrently pending read ops ``read``/``feed`` added to the write programs; the recorded interest
+      set is checked at every quiescence: unsent bytes => WRITE registered, pending read => READ registered)
   (M7 append: ``new_buf = is_memview or len(b) >= T`` -> ``len(b) >= T`` survives: memoryview entries are
    always > T bytes long, so the mutant is equivalent.)
 """
@@ -50,8 +59,14 @@ from hypothesis import strategies as st
 
 from tornado.iostream import StreamBufferFullError, _StreamBuffer
 
+from vlib import iosmodel as M
 from vlib import vtime
-from vlib.memstream import MemoryIOStream
+from vlib.memstream import READ, WRITE, MemoryIOStream
+
+M.quiet_logs()
+# inbound bytes for the optional concurrently pending read (read_bytes(4) / read_until(b"\n"))
+IN_STREAM = b"xy\nzw" * 400
+READ_SPECS = {"bytes": ("bytes", 4, False), "until": ("until", 0, None)}
 
 PROPERTY = "C12"
 READY = True
@@ -107,6 +122,8 @@ op_s = st.one_of(
     st.tuples(st.just("chunk"), st.sampled_from([None, 1, 7, 1000, 2047, 2048, 2049, 4096])),
     st.tuples(st.just("flush")),
     st.tuples(st.just("mutate"), st.integers(0, 9)),
+    st.tuples(st.just("read"), st.sampled_from(["bytes", "until"])),
+    st.tuples(st.just("feed"), st.sampled_from([1, 1, 2, 3, 5])),
 )
 case_s = st.fixed_dictionaries({
     "mwbs": st.sampled_from([None, None, None, 100, 2048, 4096, 6000]),
@@ -171,6 +188,29 @@ async def scenario(ctx, case, labels, out):
 
     def sent():
         return len(s.wire)
+
+    rs = {"rd": None, "fed": 0, "cursor": 0}  # the concurrently pending read and its (stream, cursor) model
+
+    def check_read_and_interest(step, op):
+        rd = rs["rd"]
+        if rd is not None:
+            status, k = M.verdict(ctx, P, rd, IN_STREAM[rs["cursor"]: rs["fed"]], False, [], s, detail={"step": step})
+            if status == "ok":
+                rs["cursor"] += k
+                rs["rd"] = rd = None
+                labels.add("concurrent_read_completed")
+            elif status != "pending":
+                rs["rd"] = rd = None
+        # no lost interest: what the stream is registered for with the event loop, at quiescence
+        ev = s.events if s.handler is not None else 0
+        d = {"step": step, "op": op, "events": ev, "sent": sent(), "queued": len(E), "read_pending": rd is not None}
+        if sent() < len(E):
+            if not ev & WRITE:
+                ctx.fail(P + ".lost_write_interest", d)
+            if rd is not None:
+                labels.add("read_pending_while_bytes_unsent")
+        if rd is not None and not ev & READ:
+            ctx.fail(P + ".lost_read_interest", d)
 
     def check(step, op):
         nonlocal split_seen
@@ -275,6 +315,14 @@ async def scenario(ctx, case, labels, out):
             s.max_write_chunk = op[1]
         elif kind == "flush":
             s.write_credit = None
+        elif kind == "read":
+            if rs["rd"] is None:
+                rs["rd"] = M.Read(READ_SPECS[op[1]]).issue(s, ())
+                labels.add("concurrent_read_" + op[1])
+        elif kind == "feed":
+            chunk = IN_STREAM[rs["fed"]: rs["fed"] + op[1]]
+            s.feed(chunk)
+            rs["fed"] += len(chunk)
         elif kind == "mutate":
             if ba_writes:
                 w, ba = ba_writes[op[1] % len(ba_writes)]
@@ -290,6 +338,7 @@ async def scenario(ctx, case, labels, out):
                     labels.add("mutated_after_write_either")
         await vtime.settle(pump=s.pump_once)
         check(step, op)
+        check_read_and_interest(step, op)
         if kind == "flush":
             s.write_credit = 0
 
@@ -298,6 +347,7 @@ async def scenario(ctx, case, labels, out):
     s.max_write_chunk = None
     await vtime.settle(pump=s.pump_once)
     check("epilogue", None)
+    check_read_and_interest("epilogue", None)
     if sent() != len(E) or any(not w.fut.done() for w in writes):
         ctx.fail(P + ".not_drained", {"sent": sent(), "queued": len(E)})
     nonempty = sum(1 for w in writes if w.size)
